@@ -172,6 +172,9 @@ Step ==
             /\ m' = [m EXCEPT !.blocked = TRUE]
             /\ viol' = viol \cup {V("C20", l, "the server neither answered nor gave up: it waits for input after a complete message"),
                                    V("C12", l, "server waits for input while the client is waiting for a reply")}
+                             \cup (IF SkipTo(m).di < Len(m.cmds)
+                                   THEN {V("C01", l, "a completely received (multi-packet) command was not delivered to the shim: the server keeps waiting for input")}
+                                   ELSE {})
        [] e.e = "cb" ->
             IF e.name = "auth" THEN m' = [m EXCEPT !.di = 1] /\ UNCHANGED viol
             ELSE LET mm == SkipTo(m)
